@@ -53,7 +53,6 @@ type world struct {
 }
 
 func (w *world) enter(l lbid, m string) {
-	rt.SchedPoint("enter " + l.tag() + " " + m)
 	w.mu.Lock()
 	w.log = append(w.log, event{l, m, true})
 	w.mu.Unlock()
